@@ -129,6 +129,10 @@ RET_PROGRAMS = [
     ("tail-handle-anonymous-arm", "class MyErr(msg: Str): Exception(msg)\n\ndef risky(x: Int) -> Int raise [MyErr] =>\n    if x > 2 then raise MyErr(\"too big\") else x * 2\n\ndef safe(x: Int) -> Int =>\n    risky(x) handle\n        _: MyErr => -1\n\nprint(safe(1))\nprint(safe(7))", "2\n-1"),
     ("tail-handle-named-arm", "class MyErr(msg: Str): Exception(msg)\n\ndef risky(x: Int) -> Int raise [MyErr] =>\n    if x > 2 then raise MyErr(\"too big\") else x * 2\n\ndef named(x: Int) -> Int =>\n    risky(x) handle\n        err: MyErr => -1\n\nprint(named(1))\nprint(named(7))", "2\n-1"),
     ("tail-explicit-return", "def f(x: Int) -> Int =>\n    return x + 1\nprint(f(1))", "2"),
+    ("assign-if-block-ending-in-handle", "def checked(n: Int) -> Int raise [Exception] =>\n    if n < 0 then raise Exception(\"negative\") else n\n\n"
+     "def score(n: Int, strict: Bool) -> Int =>\n    def base: Int := if strict then\n        print(\"strict\")\n        checked(n) handle\n            err: Exception => 0 - 1\n"
+     "    else\n        print(\"lenient\")\n        checked(n) handle\n            _: Exception => 7\n    base + 100\n\n"
+     "print(score(5, True))\nprint(score(0 - 5, True))\nprint(score(5, False))\nprint(score(0 - 5, False))", "strict\n105\nstrict\n99\nlenient\n105\nlenient\n107"),
     ("assign-if-expression", "def x := if True then 1 else 2\nprint(x)", "1"),
     ("assign-match-expression", "def a := 3\ndef x: Int := match a\n    1 => 10\n    _ => 20\nprint(x)", "20"),
 ]
